@@ -509,6 +509,17 @@ def run_case(ctx, family, params):
         sel = L + m + k + dim
         _call_moments(ctx, g, _order_arg(L, sel), c, f, t, sel // 3)
         ctx.case_note("N", n)
+        if (L + m + 3 * k) % 3 == 0:
+            # history on ONE grid object: same call again after the points (and weights) were reassigned through the public
+            # setters - every entry must be the quadrature over the grid AS IT STANDS at call time (the post-condition reads
+            # the current public points/weights)
+            new_pts = np.asarray(g.points, dtype=float) * float(rng.choice([-1.0, 0.5, 2.0])) + (rng.normal(size=np.asarray(g.points).shape[1:]) if rng.random() < 0.7 else 0.0)
+            g.points = np.ascontiguousarray(new_pts)
+            if rng.random() < 0.5:
+                g.weights = _random_weights(rng, n)
+            f2 = f if rng.random() < 0.5 else _random_f(rng, pts, scale)
+            _call_moments(ctx, g, _order_arg(L, sel), c, f2, t, sel // 3)
+            ctx.count("moments:same-call-after-points-reassigned")
     elif family == "real-grid":
         t, L, k = params["type"], params["order"], params["k"]
         with ctx.guard("no-exception", f"build:{params['grid']}"):
